@@ -12,8 +12,10 @@ for f in sorted(k, key=lambda f: (f["property"], f["status"], f["id"])):
 out += ["", "Fixed entries suppress nothing: the checks pass on the repaired tree without a KNOWN-FINDING line for them and "
         "report the violation again if the defect returns (verified by reverting each fix in a scratch worktree).", "",
         "### 10.5 Seeded breaking changes (written by independent sub-agents from the property text only)", "",
-        "| id | property | what it breaks / needs to manifest | confirmed | caught by `./check Cxx --tier quick` | first signature |",
-        "|---|---|---|---|---|---|"]
+        "Column *first run*: what the quick check said when the change was first tried (before anything was adapted to it); "
+        "*now*: after the strengthening named in the last column (re-run recorded in `seeded/<id>/meta.json`, `retests`).", "",
+        "| id | property | what it breaks / needs to manifest | confirmed | first run | now | caught by / strengthening |",
+        "|---|---|---|---|---|---|---|"]
 for d in sorted(glob.glob(os.path.join(VERIF, "seeded", "*"))):
     try:
         m = json.load(open(os.path.join(d, "meta.json")))
@@ -22,11 +24,26 @@ for d in sorted(glob.glob(os.path.join(VERIF, "seeded", "*"))):
     readme = m.get("needs_to_manifest", "")
     first = " ".join(readme.split())[:230].replace("|", "\\|")
     sig = ""
+    first_det = False
     for c in m["what_was_run"]["check_runs"]:
-        if c.get("first_replay"):
-            sig = json.dumps(c["first_replay"].get("signature"))[:120].replace("|", "\\|"); break
-    out.append("| %s | %s | %s | %s | %s | %s |" % (os.path.basename(d), m["property"], first, m["confirmed"],
-                                                   "yes" if m["detected_by_check"] else "NO", sig))
+        if c.get("rc") == 1 and (c.get("violations", 0) or any(l.startswith("VIOLATION") for l in c.get("lines", [])) or c.get("first_replay")):
+            first_det = True
+        if c.get("first_replay") and not sig:
+            sig = json.dumps(c["first_replay"].get("signature"))[:120].replace("|", "\\|")
+    how = sig
+    rts = m.get("retests", [])
+    if rts:
+        det = [r for r in rts if r["detected"]]
+        how = "; ".join("%s: %s" % (r["check"], "caught" if r["detected"] else "missed") for r in rts)
+        if det and det[-1].get("note"):
+            how += " - " + det[-1]["note"]
+        if det and det[-1].get("first_replay"):
+            how += " " + json.dumps(det[-1]["first_replay"].get("signature"))[:100].replace("|", "\\|")
+    if m.get("note"):
+        how += " (" + m["note"][:160] + ")"
+    out.append("| %s | %s | %s | %s | %s | %s | %s |" % (os.path.basename(d), m["property"], first, m["confirmed"],
+                                                        "caught" if (first_det or (m["detected_by_check"] and not rts)) else "MISSED",
+                                                        "caught" if m["detected_by_check"] else "MISSED", how))
 out += ["", "<!-- AUTOGEN-END -->"]
 p = os.path.join(VERIF, "DESIGN.md")
 s = open(p).read()
